@@ -15,6 +15,13 @@ from typing import Any, Callable, Iterable
 import numpy as np
 
 
+
+class NondeterministicReplay(RuntimeError):
+    """The same history, replayed from freshly built objects, reached a different state digest: state is carried from one
+    replay to the next outside the objects the harness rebuilds (class- or module-level mutable state in the code under
+    test). For every property whose check replays histories this is a violation of history independence, not a harness error."""
+
+
 def digest(obj: Any, sig: int = 12) -> str:
     """Canonical digest of nested python/numpy data: floats rounded to `sig` significant digits,
     dict keys sorted, sets sorted. Use on a dict of the observable fields of the object."""
@@ -104,7 +111,7 @@ def explore(
             continue
         base_obj = build(hist)
         if state_key(base_obj) != k:
-            raise RuntimeError(f"nondeterministic replay of history {hist!r}")
+            raise NondeterministicReplay(f"nondeterministic replay of history {hist!r}")
         menu = list(ops(base_obj, hist))
         for i, op in enumerate(menu):
             obj = build(hist) if (rebuild and i > 0) else base_obj
